@@ -194,15 +194,22 @@ pub fn gen_leaf(rng: &mut Rng, cfg: &GenCfg) -> TreeSpec {
         let inner_map = gen_map_for(rng, &orig, None);
         Some(InnerMapSpec {
           original_source: if rng.chance(700) { Some(orig) } else { None },
-          inner_map,
+          inner_map: Some(inner_map),
           remove_original_source: rng.chance(300),
+        })
+      } else if rng.chance(120) {
+        // the full options constructor without an inner map
+        Some(InnerMapSpec {
+          original_source: if rng.chance(600) { Some(gen_text(rng, 12, cfg.ascii)) } else { None },
+          inner_map: None,
+          remove_original_source: rng.chance(400),
         })
       } else {
         None
       };
       // make the outer map mention `name` so the inner map applies
       let mut map = map;
-      if inner.is_some() && !map.sources.is_empty() {
+      if inner.as_ref().is_some_and(|i| i.inner_map.is_some()) && !map.sources.is_empty() {
         map.sources[0] = name.clone();
       }
       TreeSpec::SourceMap {
@@ -369,7 +376,7 @@ pub fn is_ascii_tree(spec: &TreeSpec) -> bool {
         && name.is_ascii()
         && map_ascii(map)
         && inner.as_ref().map_or(true, |i| {
-          map_ascii(&i.inner_map) && i.original_source.as_ref().map_or(true, |s| s.is_ascii())
+          i.inner_map.as_ref().map_or(true, map_ascii) && i.original_source.as_ref().map_or(true, |s| s.is_ascii())
         })
     }
     TreeSpec::Concat { children, .. } => children.iter().all(is_ascii_tree),
